@@ -78,6 +78,16 @@ CHECKS = {
         "note": "Canonical comment texts; comments trailing '(' or '{' lines and tab-indented tag lines are not generated (statement silent). Exhaustive up to the line-count / length bound.",
         "technique": _TLC,
     },
+    "C13": {
+        "level": "model_checking",
+        "text": "Universe.tla models (1) filling name-keyed tables from an arbitrarily ordered Defs map - TLC proves the result equals the package-scope view for every order "
+                "with the scope filter and exhibits the order-dependent counterexample without - and (2) DFS registration over an import DAG for every visiting order and root set "
+                "(imports resolve iff the package object is created after its imports). Every selection of up to 3-4 of 22 source features is a synthetic package, the dependency "
+                "closure of gengo's own module (std included) is the real corpus; UniverseTrace.tla compares table key sets, identity, MethodsOf, Imports, LocateInPackage, SourceDir "
+                "with go/types scopes and file positions logged by the harness.",
+        "note": "go/types and go/packages are the oracle. Interface types are excluded from the MethodsOf comparison; init/blank functions set aside.",
+        "technique": _TLC,
+    },
     "C15": {
         "level": "model_checking",
         "text": "TypeRef.tla defines reference trees, their printer, a character-level parser with a bracket depth counter, the path/name split point and the "
